@@ -187,7 +187,7 @@ func runCheck(prop, tier, repo, verif, only string, updateBaseline bool) int {
 		return fail("load: " + err.Error())
 	}
 	w.specFn("")
-	evalAllFacts(w, outDir, prop)
+	evalAllFacts(w, outDir, prop, tier)
 
 	// select functions
 	var sel []*FuncContract
@@ -339,12 +339,23 @@ func runCheck(prop, tier, repo, verif, only string, updateBaseline bool) int {
 	bySolver := map[string]int{}
 	var lines []string
 	var oblJSON []map[string]interface{}
+	var boundedNames []string
+	nBoundedPass := 0
 	seen := map[string]bool{}
 	var covers int
 	for _, o := range obls {
 		seen[o.Name] = true
 		solverMs += o.TimeMs
 		rec := map[string]interface{}{"name": o.Name, "kind": o.Kind, "pos": o.Pos, "status": o.Status, "solver": o.Solver, "time_ms": o.TimeMs, "desc": o.Desc}
+		if o.Bounded != "" {
+			rec["bounded"] = o.Bounded
+			if o.Kind == "fact" {
+				boundedNames = append(boundedNames, o.Name)
+				if o.Status == "discharged" {
+					nBoundedPass++
+				}
+			}
+		}
 		oblJSON = append(oblJSON, rec)
 		if o.Cover {
 			covers++
@@ -498,7 +509,10 @@ func runCheck(prop, tier, repo, verif, only string, updateBaseline bool) int {
 			"checker_cmd":              strings.Join(os.Args, " "),
 			"trusted_base":             tb,
 			"samples":                  samples,
-			"explanation":              fmt.Sprintf("%d obligations generated from the SSA of %d functions under contract in /repo's working tree; %d discharged (unsat), %d known findings, %d violations, %d undecided; %d vacuity covers satisfiable", nObl, len(fuc), nDis, nKnown, nViol, nUndecided, nCover),
+			"explanation":              fmt.Sprintf("%d obligations generated from the SSA of %d functions under contract in /repo's working tree; %d discharged, of which %d by proof (unsat / constant-folded / closed facts) and %d are BOUNDED evaluations of the real code over a stated finite domain (not proofs; listed under bounded_evaluations); %d known findings, %d violations, %d undecided; %d vacuity covers satisfiable", nObl, len(fuc), nDis, nDis-nBoundedPass, nBoundedPass, nKnown, nViol, nUndecided, nCover),
+			"discharged_by_proof":      nDis - nBoundedPass,
+			"bounded_passed":           nBoundedPass,
+			"bounded_evaluations":      boundedNames,
 			"evaluations":              nObl,
 			"distinct_nontrivial":      nObl - byKindTrivial(obls),
 			"rule":                     "one SMT query per named obligation (postcondition, call-site precondition, loop invariant init/step, variant, memory-safety check, frame check); non-trivial = not constant-folded by the generator",
@@ -521,7 +535,11 @@ func runCheck(prop, tier, repo, verif, only string, updateBaseline bool) int {
 	for _, l := range lines {
 		fmt.Println(l)
 	}
-	fmt.Printf("property %s: %d obligations, %d discharged, %d known, %d violations, %d undecided, covers %d sat / %d inconclusive / %d total; %.1fs\n", prop, nObl, nDis, nKnown, nViol, nUndecided, nCover, nCoverUnknown, covers, time.Since(t0).Seconds())
+	bnd := ""
+	if len(boundedNames) > 0 {
+		bnd = fmt.Sprintf(" (%d of them bounded evaluations, %d passed)", len(boundedNames), nBoundedPass)
+	}
+	fmt.Printf("property %s: %d obligations%s, %d discharged, %d known, %d violations, %d undecided, covers %d sat / %d inconclusive / %d total; %.1fs\n", prop, nObl, bnd, nDis, nKnown, nViol, nUndecided, nCover, nCoverUnknown, covers, time.Since(t0).Seconds())
 	if nViol > 0 {
 		return 1
 	}
@@ -628,7 +646,7 @@ type factRes struct {
 	ms     int64
 }
 
-func evalAllFacts(w *World, outDir string, prop string) {
+func evalAllFacts(w *World, outDir string, prop string, tier string) {
 	w.FactResult = map[string]factRes{}
 	type item struct{ pkg, fn string }
 	byPkg := map[string][]string{}
@@ -701,9 +719,10 @@ func evalAllFacts(w *World, outDir string, prop string) {
 			defer wg.Done()
 			t0 := time.Now()
 			runFacts := func(rx string) string {
-				cmd := exec.Command("go", "test", "-tags", "verif", "-overlay", ovFile, "-vet=off", "-count=1", "-timeout", "300s", "-run", rx, "-v", pp)
+				cmd := exec.Command("go", "test", "-tags", "verif", "-overlay", ovFile, "-vet=off", "-count=1", "-timeout", "900s", "-run", rx, "-v", pp)
 				cmd.Dir = w.RepoDir
-				cmd.Env = append(os.Environ(), "GOFLAGS=-mod=mod", "GOPROXY=off", "GOSUMDB=off", "GOTOOLCHAIN=local")
+				// bounded facts may widen their finite domain in the thorough tier (the helper reads GOVC_TIER)
+				cmd.Env = append(os.Environ(), "GOFLAGS=-mod=mod", "GOPROXY=off", "GOSUMDB=off", "GOTOOLCHAIN=local", "GOVC_TIER="+tier)
 				out, _ := cmd.CombinedOutput()
 				return string(out)
 			}
